@@ -16,9 +16,32 @@ func singleStore(a *ssa.Alloc) ssa.Value {
 	var val ssa.Value
 	n := 0
 	for _, r := range *a.Referrers() {
-		if st, ok := r.(*ssa.Store); ok && st.Addr == a {
-			val = st.Val
-			n++
+		switch x := r.(type) {
+		case *ssa.Store:
+			if x.Addr == a {
+				val = x.Val
+				n++
+			} else {
+				return nil // the address itself is stored somewhere: may be written through it
+			}
+		case *ssa.UnOp, *ssa.FieldAddr, *ssa.IndexAddr, *ssa.DebugRef, *ssa.Slice:
+		case ssa.CallInstruction:
+			// receiver of a method call: treated as read-only (accessor idiom); any other argument position may be written through
+			cc := x.Common()
+			if cal := cc.StaticCallee(); cal != nil && cal.Signature.Recv() != nil && len(cc.Args) > 0 && cc.Args[0] == ssa.Value(a) {
+				cnt := 0
+				for _, arg := range cc.Args {
+					if arg == ssa.Value(a) {
+						cnt++
+					}
+				}
+				if cnt == 1 {
+					continue
+				}
+			}
+			return nil
+		default:
+			return nil // address escapes (call argument, closure binding, interface): other writers possible
 		}
 	}
 	if n == 1 {
